@@ -144,6 +144,11 @@ func (g *sgen) cqSelect(mask int) string {
 	if agg {
 		d := g.kw("time") + "(" + pick(g.r, cqDurations) + ")"
 		if g.chance(3) {
+			// an offset as second argument: a duration, now(), a time string, a negative duration (round-5 seeded
+			// change C01-2: GroupByInterval, which the continuous-query parser asks, started to validate the offset)
+			d = g.kw("time") + "(" + pick(g.r, cqDurations) + g.ows() + "," + g.ows() + pick(g.r, []string{"30s", "now()", "-30s", "'2000-01-01T00:00:00Z'", "1m"}) + ")"
+		}
+		if g.chance(3) {
 			d += g.ows() + "," + g.ows() + g.ref()
 		}
 		if g.chance(12) {
